@@ -130,7 +130,7 @@ func c03Run(u *vfUnit) {
 				for it := 0; it < perG; it++ {
 					n := uint64(g)*100000 + uint64(it)*13 + uint64(rr.Intn(7))
 					calls.Add(1)
-					switch op := rr.Intn(13); op {
+					switch op := rr.Intn(15); op {
 					case 12: // a call abandoned through its context while its request is outstanding
 						ctx, cancel := context.WithCancel(context.Background())
 						cdone := make(chan struct{})
@@ -193,7 +193,7 @@ func c03Run(u *vfUnit) {
 						if nn != want || (want == l && err != nil) || (want < l && err != io.EOF) || !bytes.Equal(bufr[:nn], vfPattern(fn, int64(off), nn)) {
 							report("ReadAt", fmt.Sprintf("ReadAt(file %d, off %d, len %d) = (%d, %v): bytes differ from that file's content at that offset at %d", fn, off, l, nn, err, vfFirstDiff(bufr[:min(nn, l)], vfPattern(fn, int64(off), min(nn, l)))))
 						}
-					case 9: // WriteAt on a shared file
+					case 9, 13, 14: // WriteAt on a shared file (13, 14: one packet, any offset: about one in seven is refused by the peer)
 						if len(shared) == 0 {
 							continue
 						}
@@ -201,6 +201,10 @@ func c03Run(u *vfUnit) {
 						fn := uint64(100 + k)
 						off := int64(rr.Intn(4000)) * 7 // never hits the failing residue 3 unless chunk offsets do
 						l := 1 + rr.Intn(3*P)
+						if op != 9 {
+							// concurrent single-packet writes on one File whose outcomes differ (success / a failure naming its offset)
+							off, l = int64(rr.Intn(28000)), 1+rr.Intn(P)
+						}
 						data := vfPattern(fn+1000, off, l)
 						nn, err := shared[k].WriteAt(data, off)
 						// expected: the lowest chunk offset with off%7==3 fails
@@ -244,7 +248,19 @@ func c03Run(u *vfUnit) {
 				}
 			}(g)
 		}
+		// every second scenario: a second Client of the same process (own connection, own peer) is busy at the
+		// same time; what one session sends must not depend on another session's traffic
+		var stop2 chan struct{}
+		var done2 chan string
+		if si%2 == 1 {
+			stop2 = make(chan struct{})
+			done2 = c03SecondClient(u, r.Fork(), stop2)
+			u.Count("scenarios_with_second_client", 1)
+		}
 		done := vfGo(func() { wg.Wait() })
+		if stop2 != nil {
+			go func() { <-done; close(stop2) }()
+		}
 		w := map[string]any{"scenario": label, "unit": u.Index, "scenario_index": si}
 		if wv, dump := vfAwait(done, 180*time.Second); wv != vfDone {
 			if wv == vfStuck {
@@ -259,6 +275,11 @@ func c03Run(u *vfUnit) {
 		}
 		for _, f := range shared {
 			f.Close()
+		}
+		if done2 != nil {
+			if msg := <-done2; msg != "" {
+				u.Violation("second-client", label+": the second Client running beside this one: "+msg, w)
+			}
 		}
 		hooks.Uninstall()
 		st := peer.Stats()
@@ -291,4 +312,86 @@ func c03Run(u *vfUnit) {
 			u.Sample(map[string]any{"scenario": label, "calls": calls.Load(), "replies_out_of_order": st.OutOfOrder, "max_ids_in_flight": model.maxIn})
 		}
 	}
+}
+
+// c03SecondClient: another Client with its own scripted peer; two goroutines issue Stat/Lstat/ReadLink with long
+// names of their own and compare every result; the peer checks that every request frame is exactly one packet.
+func c03SecondClient(u *vfUnit, r *vfRand, stop chan struct{}) chan string {
+	out := make(chan string, 1)
+	model := &vfModel{handles: map[string]uint64{}, writes: map[string][]byte{}, inflight: map[uint32]bool{}}
+	peer := &vfPeer{HoldK: 2 + r.Intn(6), Rng: r.Fork(), Handler: model.handler,
+		OnRequest: func(req vfPkt, raw []byte, perr error) {
+			model.mu.Lock()
+			defer model.mu.Unlock()
+			if perr != nil {
+				model.badFrame = fmt.Sprintf("request frame does not decode: %v (% x)", perr, vfTrimB(raw, 40))
+			} else if _, err := vfParse(raw, true); err != nil {
+				model.badFrame = fmt.Sprintf("request frame is not exactly one packet: %v (% x)", err, vfTrimB(raw, 40))
+			} else if req.Type != rfInit && req.Path != "" && !strings.HasPrefix(req.Path, "/second-session/") {
+				model.badFrame = fmt.Sprintf("request %s carries a name this session never used", req)
+			}
+		}}
+	c, _, _, ce, err := vfPeerClient(peer, vfPipeOpts{})
+	if err != nil {
+		out <- ""
+		return out
+	}
+	var first atomic.Value
+	var wg sync.WaitGroup
+	for g := 0; g < 2; g++ {
+		wg.Add(1)
+		go func(g int) {
+			defer wg.Done()
+			pad := strings.Repeat("p", 40+g*37)
+			for it := 0; ; it++ {
+				select {
+				case <-stop:
+					return
+				default:
+				}
+				n := uint64(900000 + g*10000 + it)
+				switch it % 3 {
+				case 0:
+					fi, err := c.Stat(fmt.Sprintf("/second-session/%s/%d", pad, n))
+					if err != nil || uint64(fi.Size()) != vfModelSize(n) {
+						first.CompareAndSwap(nil, fmt.Sprintf("Stat(%d) = %v, %v", n, fi, err))
+						return
+					}
+				case 1:
+					fi, err := c.Lstat(fmt.Sprintf("/second-session/%s/%d", pad, n))
+					if err != nil || uint64(fi.Size()) != vfModelSize(n)+1 {
+						first.CompareAndSwap(nil, fmt.Sprintf("Lstat(%d) = %v, %v", n, fi, err))
+						return
+					}
+				default:
+					s, err := c.ReadLink(fmt.Sprintf("/second-session/%s/%d", pad, n))
+					if err != nil || s != fmt.Sprintf("/target/%d", n) {
+						first.CompareAndSwap(nil, fmt.Sprintf("ReadLink(%d) = %q, %v", n, s, err))
+						return
+					}
+				}
+			}
+		}(g)
+	}
+	go func() {
+		msg := ""
+		if w, _ := vfAwait(vfGo(func() { <-stop; wg.Wait() }), 300*time.Second); w != vfDone {
+			msg = "its calls never return"
+		}
+		peer.Stop()
+		ce.Close()
+		if w, _ := vfAwait(vfGo(func() { c.Close() }), 60*time.Second); w != vfDone && msg == "" {
+			msg = "its Close never returns"
+		}
+		if v := first.Load(); v != nil && msg == "" {
+			msg = v.(string)
+		}
+		model.mu.Lock()
+		if model.badFrame != "" {
+			msg = "request stream corrupt: " + model.badFrame
+		}
+		model.mu.Unlock()
+		out <- msg
+	}()
+	return out
 }
